@@ -146,11 +146,22 @@ func overlapPairs(ops []porcupine.Operation) int {
 	return n
 }
 
+// maxAttempts: a plan whose recorded history porcupine cannot decide in time is
+// executed again (new schedule, new history); only when every attempt stays
+// undecided the case is INCONCLUSIVE. An undecided history is never evidence
+// for either side.
+const maxAttempts = 3
+
 // decide runs porcupine on a recorded history and records the verdict:
 // Ok -> counter, Illegal -> violation with the history as witness,
-// Unknown (search timed out) -> inconclusive, never a violation.
-func decide(c *vcommon.Case, what string, model porcupine.Model, ops []porcupine.Operation, extra map[string]any) porcupine.CheckResult {
-	res, _ := porcupine.CheckOperationsVerbose(model, ops, porcupineTimeout)
+// Unknown (search timed out) -> retry (returned to the caller) and on the last
+// attempt inconclusive, never a violation.
+func decide(c *vcommon.Case, what string, model porcupine.Model, ops []porcupine.Operation, extra map[string]any, attempt int) porcupine.CheckResult {
+	limit := porcupineTimeout
+	if attempt < maxAttempts-1 && limit > 30*time.Second {
+		limit = 30 * time.Second
+	}
+	res, _ := porcupine.CheckOperationsVerbose(model, ops, limit)
 	c.Eval(1)
 	switch res {
 	case porcupine.Ok:
@@ -163,8 +174,12 @@ func decide(c *vcommon.Case, what string, model porcupine.Model, ops []porcupine
 		}
 		c.Violation("not-linearizable", fmt.Sprintf("%s: recorded history of %d operations has no linearization in the sequential model", what, len(ops)), w)
 	default:
+		if attempt < maxAttempts-1 {
+			c.Count("porcupine_unknown_history_discarded_plan_rerun", 1)
+			return res
+		}
 		c.Count("porcupine_unknown", 1)
-		c.Inconclusive(fmt.Sprintf("%s: porcupine search exceeded %s on %d operations", what, porcupineTimeout, len(ops)))
+		c.Inconclusive(fmt.Sprintf("%s: porcupine search exceeded %s on %d operations in each of %d executions of the plan", what, limit, len(ops), maxAttempts))
 	}
 	return res
 }
@@ -211,7 +226,7 @@ func op(client int, call, ret int64, in, out interface{}) porcupine.Operation {
 // searchBudget bounds the number of downsets (per+1)^clients of a generated
 // concurrent history, which bounds porcupine's search however the operations
 // overlap: many short histories instead of few long ones.
-const searchBudget = 150000
+const searchBudget = 60000
 
 // boundPer lowers the operations per client until the history respects
 // maxTotal operations and the search budget (never below 2).
